@@ -191,7 +191,21 @@ def run(ctx):
             tasks.append(asyncio.create_task(submitter(ctx, w, i, users[i % 2], st), name=f'sub{i}'))
         if cfg.draw(2):
             tasks.append(asyncio.create_task(submitter(ctx, w, 10, users[0], st, batch_ref=st['refs'][0]), name='co'))
+        crash_task = None
+        if s.draw(3) == 0:
+            # the front-end process dies once or twice while submissions are in flight (mid-transaction, between the
+            # commit and the response, between two requests of one submission) and a new one boots a little later
+            async def crasher():
+                c = ctx.stream('crasher')
+                for _ in range(c.rint(1, 2)):
+                    await asyncio.sleep(c.ticks(6000))
+                    w.crash_front_end()
+                    await asyncio.sleep(c.rint(1, 10))
+                    await w.restart_front_end()
+            crash_task = asyncio.create_task(crasher(), name='crasher')
         done, pending = await asyncio.wait(tasks, timeout=3000)
+        if crash_task is not None:
+            await crash_task
         for t in pending:
             t.cancel()
         for t in done:
